@@ -692,24 +692,117 @@ def raises_only(body):
 # cutoff pairing
 # ----------------------------------------------------------------------------
 class Mask:
-    def __init__(self, source, summed, cutoff, text):
-        self.source = source  # text of the density expression the mask is built from
-        self.summed = summed  # True: spin-summed density; False: per-spin density
+    """One cutoff comparison  <reduction over spin>(<scale> * <source>) < <cutoff>.
+    red    'none' per spin channel | 'sum' | 'mean' over the spin axis
+    scale  '1' | 'nspin' (the per-spin density multiplied by the number of spin channels, or the cutoff
+           divided by it: the per-spin form of `total density < cutoff`)
+    alts   the disjuncts when the index is a union of masks (a | b, np.logical_or); [self] otherwise"""
+
+    def __init__(self, source, summed, cutoff, text, red=None, scale="1"):
+        self.source = source
+        self.red = red if red is not None else ("sum" if summed else "none")
+        self.scale = scale
         self.cutoff = cutoff
         self.text = text
+        self.alts = [self]
+
+    @property
+    def summed(self):
+        return self.red in ("sum", "mean")
+
+    def same(self, o):
+        return (self.source, self.red, self.scale, self.cutoff) == (o.source, o.red, o.scale, o.cutoff)
 
     def __repr__(self):
-        return "%s%s < %s" % (self.source, ".sum(0)" if self.summed else "", self.cutoff)
+        return self.text
 
 
 def _strip_sum(e):
-    """rho.sum(0) / rho.sum(axis=0) / np.sum(rho, axis=0) -> (rho, True)"""
+    """rho.sum(0) / rho.sum(axis=0) / np.sum(rho, axis=0) -> (rho, True); the same for mean"""
+    inner, red = _strip_reduction(e)
+    return inner, red != "none"
+
+
+def _strip_reduction(e):
     if isinstance(e, ast.Call):
-        if isinstance(e.func, ast.Attribute) and e.func.attr == "sum" and pf.call_name(e) not in ("np.sum", "numpy.sum"):
-            return e.func.value, True
-        if pf.call_name(e) in ("np.sum", "numpy.sum") and e.args:
-            return e.args[0], True
-    return e, False
+        if isinstance(e.func, ast.Attribute) and e.func.attr in ("sum", "mean") \
+                and pf.call_name(e) not in ("np.sum", "numpy.sum", "np.mean", "numpy.mean"):
+            return e.func.value, e.func.attr
+        if pf.call_name(e) in ("np.sum", "numpy.sum", "np.mean", "numpy.mean") and e.args:
+            return e.args[0], pf.call_name(e).split(".")[-1]
+    return e, "none"
+
+
+def _is_nspin(fn, e, at):
+    """<array>.shape[0], or a name bound to it: the number of spin channels"""
+    if isinstance(e, ast.Subscript) and isinstance(e.value, ast.Attribute) and e.value.attr == "shape" \
+            and isinstance(e.slice, ast.Constant) and e.slice.value == 0:
+        return True
+    if isinstance(e, ast.Call) and pf.call_name(e) == "len" and e.args:
+        return True
+    if isinstance(e, ast.Name):
+        d = reaching_assign(fn, e.id, at)
+        if d is not None:
+            if isinstance(d.value, ast.Name):
+                return False
+            return _is_nspin(fn, d.value, d)
+        # unpacking  nspin, N0, Nsamp = X0T.shape
+        for st, v, k in assigns_to(fn, e.id):
+            if k == "unpack" and isinstance(v, ast.Attribute) and v.attr == "shape":
+                tgt = st.targets[0]
+                return bool(tgt.elts) and isinstance(tgt.elts[0], ast.Name) and tgt.elts[0].id == e.id
+    return False
+
+
+def _mask_atom(fn, c, params):
+    if not (isinstance(c, ast.Compare) and len(c.ops) == 1 and isinstance(c.ops[0], (ast.Lt, ast.LtE))):
+        return None
+    left, right = c.left, c.comparators[0]
+    scale = "1"
+    if isinstance(right, ast.BinOp) and isinstance(right.op, ast.Div) and _is_nspin(fn, right.right, c):
+        right, scale = right.left, "nspin"
+    if not (isinstance(right, ast.Name) and right.id in params):
+        return None
+    inner, red = _strip_reduction(left)
+    if isinstance(inner, ast.BinOp) and isinstance(inner.op, ast.Mult):
+        for k, x in ((inner.left, inner.right), (inner.right, inner.left)):
+            if _is_nspin(fn, k, c):
+                if scale != "1":
+                    return None
+                inner, scale = x, "nspin"
+                break
+    if red == "none":
+        inner2, red2 = _strip_reduction(inner)
+        if red2 != "none":
+            inner, red = inner2, red2
+    return Mask(pf.src(inner), None, right.id, pf.src(c), red=red, scale=scale)
+
+
+def _mask_atoms(fn, e, params, depth=0):
+    """disjuncts of the boolean mask expression e"""
+    if depth > 6:
+        return []
+    if isinstance(e, ast.Tuple):
+        out = []
+        for x in e.elts:
+            out += _mask_atoms(fn, x, params, depth + 1)
+        return out
+    if isinstance(e, ast.Compare):
+        a = _mask_atom(fn, e, params)
+        return [a] if a else []
+    if isinstance(e, ast.BinOp) and isinstance(e.op, ast.BitOr):
+        l, r = _mask_atoms(fn, e.left, params, depth + 1), _mask_atoms(fn, e.right, params, depth + 1)
+        return (l + r) if (l and r) else []
+    if isinstance(e, ast.Call) and pf.call_name(e) in ("np.logical_or", "numpy.logical_or") and len(e.args) == 2:
+        l, r = _mask_atoms(fn, e.args[0], params, depth + 1), _mask_atoms(fn, e.args[1], params, depth + 1)
+        return (l + r) if (l and r) else []
+    if isinstance(e, ast.Subscript):
+        return _mask_atoms(fn, e.value, params, depth + 1)
+    if isinstance(e, ast.Name):
+        d = reaching_assign(fn, e.id, e)
+        if d is not None:
+            return _mask_atoms(fn, d.value, params, depth + 1)
+    return []
 
 
 def reaching_assign(fn, name, at):
@@ -738,22 +831,16 @@ def reaching_assign(fn, name, at):
 
 
 def resolve_mask(fn, idx, params):
-    """Find the cutoff comparison a subscript index is built from.  idx: the slice
-    expression of a zeroing store.  -> Mask or None"""
-    cands = []
-    for n in ast.walk(idx):
-        if isinstance(n, ast.Compare):
-            cands.append(n)
-        elif isinstance(n, ast.Name):
-            d = reaching_assign(fn, n.id, n)
-            if d is not None and isinstance(d.value, ast.Compare):
-                cands.append(d.value)
-    for c in cands:
-        if len(c.ops) == 1 and isinstance(c.ops[0], (ast.Lt, ast.LtE)) and isinstance(c.comparators[0], ast.Name) \
-                and c.comparators[0].id in params:
-            src_e, summed = _strip_sum(c.left)
-            return Mask(pf.src(src_e), summed, c.comparators[0].id, pf.src(c))
-    return None
+    """Find the cutoff comparison(s) a subscript index is built from.  idx: the slice expression of a
+    zeroing store.  -> Mask (with .alts listing the disjuncts of a union) or None"""
+    atoms = _mask_atoms(fn, idx, params)
+    if not atoms:
+        return None
+    m = atoms[0]
+    m.alts = atoms
+    if len(atoms) > 1:
+        m.text_all = " | ".join(a.text for a in atoms)
+    return m
 
 
 def flow_closure(fn, name):
@@ -860,8 +947,11 @@ def cutoff_pairing(fn, resolve=None):
                 if cut is None:
                     continue
                 mapping = {p: pf.src(a) for p, a in bound.items()}
-                m2 = Mask(_rename_text(mask.source, mapping), mask.summed, pf.src(cut),
-                          _rename_text(mask.text, mapping))
+                def tr(a):
+                    return Mask(_rename_text(a.source, mapping), None, pf.src(cut),
+                                _rename_text(a.text, mapping), red=a.red, scale=a.scale)
+                m2 = tr(mask)
+                m2.alts = [m2] + [tr(a) for a in mask.alts[1:]]
                 cmodes, cother = split_conditions(n)
                 found.append({"stmt": n, "site": st, "root": arg.id, "mask": m2, "modes": smodes & cmodes,
                               "other": frozenset(sother | cother), "via": callee.name})
@@ -1113,13 +1203,22 @@ def check_cutoff_pairing(chk, prog, targets, rule="cutoff-pair"):
                     if v["other"] != d["other"]:
                         problems.append((d, "`%s` runs under %s but `%s` under %s" % (
                             pf.src(v["stmt"]), sorted(v["other"]), pf.src(d["stmt"]), sorted(d["other"]))))
-                    elif mv.cutoff != md.cutoff or mv.source != md.source:
+                    elif any(a.same(mv) for a in md.alts) and len(mv.alts) == 1:
+                        pass  # the derivative is cut (at least) exactly where the value is cut
+                    elif any(a.cutoff != mv.cutoff or a.source != mv.source for a in md.alts) or len(mv.alts) > 1:
                         problems.append((d, "value mask `%s` and derivative mask `%s` are built from different "
-                                            "densities or cutoffs" % (mv.text, md.text)))
-                    elif md.summed and not mv.summed:
+                                            "densities or cutoffs" % (
+                                                " | ".join(a.text for a in mv.alts), " | ".join(a.text for a in md.alts))))
+                    elif not mv.summed and all(a.summed for a in md.alts):
                         problems.append((d, "the value is zeroed per spin channel (`%s`) but the derivative only "
                                             "where the spin-summed density is below the cutoff (`%s`): points with "
                                             "zeroed value keep a derivative" % (mv.text, md.text)))
+                    elif not (mv.red == "sum" and mv.scale == "1"
+                              and any(a.red == "none" and a.scale == "1" for a in md.alts)):
+                        problems.append((d, "the derivative mask `%s` does not contain the value mask `%s` (no "
+                                            "disjunct of it is the value mask, and it is not the unscaled per-spin "
+                                            "form of a summed mask): some points where the value is zeroed keep a "
+                                            "derivative" % (" | ".join(a.text for a in md.alts), mv.text)))
                     elif mv.summed and not md.summed:
                         chk.note(rule, "%s:%s" % (rel, where),
                                  "mode %s: value zeroed where the summed density < cutoff (`%s`), derivative zeroed "
